@@ -647,7 +647,7 @@ pub fn worker_main(engine: &dyn Engine, tier: Tier, master_seed: u64, trace: boo
                 } else {
                     "?".to_string()
                 };
-                eprintln!("harness panic in job {}: {}", job, msg);
+                eprintln!("harness panic in job {}: {} [{}]", job, msg, crate::util::take_last_panic());
                 return 3;
             }
         }
